@@ -275,3 +275,8 @@ package store
 //@   props C19
 //@   requires database != nil && held(database.RW)
 //@   ensures held(database.RW)
+
+// C10: writing an account into a block's account trie does not rank anything (chain/account.Manager.Save)
+// (its writes go to the trie's own nodes, abstracted as ghost content of the receiver)
+//@ func (*AccountTrieDB).Put   trusted
+//@   modifies gh("trieContent", db)
